@@ -204,10 +204,18 @@ ANY history of loop steps at arbitrary clock readings (spurious, late within the
 order, interleaved with steps that serve other jobs) in which no step finds the job more than `thr`
 late.  Then the fire times dispatched for the job are exactly `f0, f0 + I, f0 + 2 I, …` — whatever the
 actual clock readings were — each `NextFireTime` call was made with the scheduled fire time (not the
-clock) as argument, and the job sits in the registry with fire time `f0 + k I`. -/
+clock) as argument, and the job sits in the registry with fire time `f0 + k I`.
+
+`hov` (no overflow): the interval addition saturates at `maxInt64` (`addNanos`, see `C04_saturates`), so the
+arithmetic progression holds as long as `clock + I` is representable at every step of the history.  This is a
+statement about the clock readings only, not about the fire times: a fire time is dispatched only when it is
+due (`x.prio + i I ≤ now`, `C03_never_early`), so `x.prio + i I + I ≤ now + I ≤ maxInt64` at every
+dispatching step, and a step that does not dispatch asks nothing.  For real clock readings (UnixNano, about
+`1.8e18`) it holds for every interval up to about 234 years. -/
 theorem C04_no_drift (thr I : Int) (s : SState) (hwf : WF s) (x : Entry) (hx : x ∈ s.q.toList)
     (hxs : x.suspended = false) (htr : s.trig x.tag = .simple I) (evs : List Ev)
-    (hos : OnlySteps evs) (hno : NeverOutdated x.tag (run thr s evs).2) :
+    (hos : OnlySteps evs) (hno : NeverOutdated x.tag (run thr s evs).2)
+    (hov : I ≤ 0 ∨ ∀ now, Ev.step now ∈ evs → now + I ≤ maxInt64) :
     ∃ k : Nat,
       dispatchTimes x.tag (run thr s evs).2 =
         (List.range k).map (fun (i : Nat) => x.prio + (i : Int) * I) ∧
@@ -216,16 +224,17 @@ theorem C04_no_drift (thr I : Int) (s : SState) (hwf : WF s) (x : Entry) (hx : x
           (⟨x.tag, x.prio + (i : Int) * I, some (x.prio + (i : Int) * I + I)⟩ : TrigCall)) ∧
       ({ x with prio := x.prio + (k : Int) * I } : Entry) ∈ (run thr s evs).1.q.toList ∧
       (run thr s evs).1.trig x.tag = .simple I :=
-  no_drift_aux thr I x.tag evs s x hwf hx hxs rfl htr hos hno
+  no_drift_aux thr I x.tag evs s x hwf hx hxs rfl htr hos hno hov
 
 /-- the hypotheses of `C04_no_drift` right after `ScheduleJob` with a simple trigger at clock reading
-`now0`: first fire time `f0 = now0 + I` -/
+`now0`: first fire time `f0 = satAdd now0 I`, that is `now0 + I`, or `maxInt64` if that overflows
+(`C04_saturates`, `satAdd_eq`) -/
 theorem C04_no_drift_start (s : SState) (hwf : WF s) (now0 I : Int) (a : SchedArgs)
     (ha : a.trig = some (.simple I)) (hs : a.suspended = false) (hfresh : AbsentTag a.tag s)
     (hok : (schedule s now0 a).2.1 = none) :
-    WF (schedule s now0 a).1 ∧ a.entry (now0 + I) ∈ (schedule s now0 a).1.q.toList ∧
-    (a.entry (now0 + I)).suspended = false ∧
-    (schedule s now0 a).1.trig (a.entry (now0 + I)).tag = .simple I := by
+    WF (schedule s now0 a).1 ∧ a.entry (satAdd now0 I) ∈ (schedule s now0 a).1.q.toList ∧
+    (a.entry (satAdd now0 I)).suspended = false ∧
+    (schedule s now0 a).1.trig (a.entry (satAdd now0 I)).tag = .simple I := by
   have hkind : Kind 0 s (.schedule now0 a) (schedule s now0 a).1
       { err := (schedule s now0 a).2.1, calls := (schedule s now0 a).2.2 } :=
     apply_kind 0 s hwf.wf0 (.schedule now0 a)
@@ -237,9 +246,8 @@ theorem C04_no_drift_start (s : SState) (hwf : WF s) (now0 I : Int) (a : SchedAr
     injection ht with ht
     subst ht
     obtain ⟨_, hp, htr, _⟩ := hc
-    have : p = now0 + I := by
-      have : (Trig.fire (.simple I) now0).1 = some (now0 + I) := rfl
-      rw [this] at hp
+    have : p = satAdd now0 I := by
+      rw [fire_simple] at hp
       injection hp with hp
       exact hp.symm
     subst this
@@ -248,29 +256,30 @@ theorem C04_no_drift_start (s : SState) (hwf : WF s) (now0 I : Int) (a : SchedAr
 /-! ## whole histories: a run-once job runs exactly once -/
 
 /-- **Run once.**  `ScheduleJob` at clock reading `now0` with a `RunOnceTrigger` of delay `d` (a new
-trigger object) succeeded: the job is registered with the single fire time `now0 + d`.  Then for EVERY
+trigger object) succeeded: the job is registered with the single fire time `f = satAdd now0 d`, that is
+`satAdd now0 d`, or `maxInt64` if that overflows (`C04_saturates`, `satAdd_eq`).  Then for EVERY
 continuation `evs` (loop steps at any clock readings, any API calls — later `ScheduleJob`s bring their
 own trigger objects):
-1. the job is dispatched at most once in total, and only for the fire time `now0 + d`; every later call
+1. the job is dispatched at most once in total, and only for the fire time `f`; every later call
    on its trigger answers "no further fire time";
-2. if some step at a clock reading within `[now0 + d, now0 + d + thr]` pops the (active) job, that step
+2. if some step at a clock reading within `[f, f + thr]` pops the (active) job, that step
    dispatches it; in total the job is then dispatched exactly once; afterwards it is never popped,
    asked or dispatched again, its tag is not in the registry, and its key is not in the registry unless
    a later `ScheduleJob` brings that key again. -/
 theorem C04_run_once (thr : Int) (s s1 : SState) (calls : List TrigCall) (hwf : WF s) (now0 d : Int)
     (a : SchedArgs) (ha : a.trig = some (.runOnce d false)) (hs : a.suspended = false)
     (hfresh : AbsentTag a.tag s) (hsched : schedule s now0 a = (s1, none, calls)) :
-    a.entry (now0 + d) ∈ s1.q.toList ∧ calls = [⟨a.tag, now0, some (now0 + d)⟩] ∧
+    a.entry (satAdd now0 d) ∈ s1.q.toList ∧ calls = [⟨a.tag, now0, some (satAdd now0 d)⟩] ∧
     ∀ evs : List Ev, FreshTags evs → FreshFor s1 evs →
       (dispatchTimes a.tag (run thr s1 evs).2 = [] ∨
-        dispatchTimes a.tag (run thr s1 evs).2 = [now0 + d]) ∧
+        dispatchTimes a.tag (run thr s1 evs).2 = [satAdd now0 d]) ∧
       (∀ c ∈ callLog (run thr s1 evs).2, c.tag = a.tag → c.result = none) ∧
       ∀ (evs1 : List Ev) (now : Int) (evs2 : List Ev), evs = evs1 ++ .step now :: evs2 →
         ∀ e, (step (run thr s1 evs1).1 now thr).2.popped = some e → e.tag = a.tag →
-          e.suspended = false → now0 + d ≤ now → now ≤ now0 + d + thr →
+          e.suspended = false → satAdd now0 d ≤ now → now ≤ satAdd now0 d + thr →
           (step (run thr s1 evs1).1 now thr).2.dispatched = true ∧
-          e = a.entry (now0 + d) ∧
-          dispatchTimes a.tag (run thr s1 evs).2 = [now0 + d] ∧
+          e = a.entry (satAdd now0 d) ∧
+          dispatchTimes a.tag (run thr s1 evs).2 = [satAdd now0 d] ∧
           (∀ o ∈ (run thr (step (run thr s1 evs1).1 now thr).1 evs2).2, o.quiet a.tag) ∧
           AbsentTag a.tag (run thr s1 evs).1 ∧
           ((∀ ev ∈ evs2, ev.schedulesKey a.group a.name = false) →
@@ -291,9 +300,8 @@ theorem C04_run_once (thr : Int) (s s1 : SState) (calls : List TrigCall) (hwf : 
   injection ht with ht
   subst ht
   obtain ⟨_, hp, htr, hcl⟩ := hc
-  have hpe : p = now0 + d := by
-    have : (Trig.fire (.runOnce d false) now0).1 = some (now0 + d) := rfl
-    rw [this] at hp
+  have hpe : p = satAdd now0 d := by
+    rw [fire_runOnce] at hp
     injection hp with hp
     exact hp.symm
   subst hpe
@@ -302,17 +310,17 @@ theorem C04_run_once (thr : Int) (s s1 : SState) (calls : List TrigCall) (hwf : 
   have htr1 : s1.trig a.tag = .runOnce d true := htr
   have hT : ∀ pv, (Trig.runOnce d true).fire pv = (none, .runOnce d true) := fun _ => rfl
   -- entries with this tag: exactly the new one
-  have hown : ∀ x ∈ s1.q.toList, x.tag = a.tag → x = a.entry (now0 + d) :=
+  have hown : ∀ x ∈ s1.q.toList, x.tag = a.tag → x = a.entry (satAdd now0 d) :=
     fun x hx hxt => hwf1.tags x hx _ hmem hxt
   refine ⟨hmem, hcl, ?_⟩
   intro evs hft hff
   have hns : a.tag ∉ schedTags evs := fun hh => hff a.tag hh _ hmem rfl
-  have hR1 : ∀ x ∈ s1.q.toList, x.tag = a.tag → x.suspended = false → x = a.entry (now0 + d) :=
+  have hR1 : ∀ x ∈ s1.q.toList, x.tag = a.tag → x.suspended = false → x = a.entry (satAdd now0 d) :=
     fun x hx hxt _ => hown x hx hxt
   obtain ⟨r1, r2, _, _⟩ :=
-    run_spent_once thr a.tag (a.entry (now0 + d)) _ hT evs s1 hwf1 hft hff hns htr1 hR1
+    run_spent_once thr a.tag (a.entry (satAdd now0 d)) _ hT evs s1 hwf1 hft hff hns htr1 hR1
   have r1 : dispatchTimes a.tag (run thr s1 evs).2 = [] ∨
-      dispatchTimes a.tag (run thr s1 evs).2 = [now0 + d] := r1
+      dispatchTimes a.tag (run thr s1 evs).2 = [satAdd now0 d] := r1
   refine ⟨r1, r2, ?_⟩
   intro evs1 now evs2 hevs e hpop het hes hlo hhi
   subst hevs
@@ -324,15 +332,15 @@ theorem C04_run_once (thr : Int) (s s1 : SState) (calls : List TrigCall) (hwf : 
   have hns2 : a.tag ∉ schedTags evs2 := by
     rw [schedTags_append, schedTags_cons] at hns
     exact fun hh => hns (List.mem_append_right _ (List.mem_append_right _ hh))
-  obtain ⟨_, _, htr2, hR2⟩ := run_spent_once thr a.tag (a.entry (now0 + d)) _ hT evs1 s1 hwf1
+  obtain ⟨_, _, htr2, hR2⟩ := run_spent_once thr a.tag (a.entry (satAdd now0 d)) _ hT evs1 s1 hwf1
     (freshTags_append_left hft) (fun t ht => hff t (by rw [schedTags_append]; exact List.mem_append_left _ ht))
     hns1 htr1 hR1
   generalize hs2 : (run thr s1 evs1).1 = s2 at *
   -- the step
   have hk2 := apply_kind thr s2 hwf2.wf0 (.step now)
   have he2 : e ∈ s2.q.toList := kind_pop hk2 _ e rfl hpop
-  have hee : e = a.entry (now0 + d) := hR2 e he2 het hes
-  have hprio : e.prio = now0 + d := by rw [hee]; rfl
+  have hee : e = a.entry (satAdd now0 d) := hR2 e he2 het hes
+  have hprio : e.prio = satAdd now0 d := by rw [hee]; rfl
   obtain ⟨_, hacc⟩ := C04_accounted s2 now thr hwf2.inv e hpop hes
   have hvalid : (step s2 now thr).2.dispatched = true ∧
       (step s2 now thr).2.calls = [⟨e.tag, e.prio, none⟩] := by
@@ -356,8 +364,8 @@ theorem C04_run_once (thr : Int) (s s1 : SState) (calls : List TrigCall) (hwf : 
         (run thr s1 evs1).2 ++ (apply thr s2 (.step now)).2 :: (run thr (step s2 now thr).1 evs2).2) := by
     rw [run_append, run_cons, hs2]
     rfl
-  -- the step's own observation dispatches `now0 + d`
-  have hdt : (apply thr s2 (.step now)).2.dispTime? a.tag = some (now0 + d) := by
+  -- the step's own observation dispatches `satAdd now0 d`
+  have hdt : (apply thr s2 (.step now)).2.dispTime? a.tag = some (satAdd now0 d) := by
     apply (dispTime_some_iff _ _ _).mpr
     refine ⟨⟨0, e.tag, e.prio⟩, ?_, het, hprio⟩
     show Obs.disp? { calls := (step s2 now thr).2.calls, out := some (step s2 now thr).2 } 0 = _
@@ -365,7 +373,7 @@ theorem C04_run_once (thr : Int) (s s1 : SState) (calls : List TrigCall) (hwf : 
     simp only [hvalid.1, hpop, if_true]
   rw [hrun] at r1 ⊢
   have hexact : dispatchTimes a.tag ((run thr s1 evs1).2 ++
-      (apply thr s2 (.step now)).2 :: (run thr (step s2 now thr).1 evs2).2) = [now0 + d] := by
+      (apply thr s2 (.step now)).2 :: (run thr (step s2 now thr).1 evs2).2) = [satAdd now0 d] := by
     rcases r1 with r1 | r1
     · rw [dispatchTimes_append, dispatchTimes_cons, hdt] at r1
       simp at r1
@@ -387,6 +395,149 @@ theorem C04_hyps_reachable (thr : Int) (evs0 : List Ev) (now0 : Int) (a : SchedA
   refine ⟨hwf, ?_, h2, h3⟩
   intro e he
   exact h5 a.tag (by rw [schedTags_cons]; exact List.mem_append_left _ (by simp [Ev.schedTag?])) e he
+
+/-! ## overflow of the interval addition: the fire time saturates, the loop does not spin
+
+`SimpleTrigger` / `RunOnceTrigger` compute `prev + interval` with `addNanos` (`satAdd`): an interval beyond
+about 292 years from `prev` (for instance `time.Duration(math.MaxInt64)` used as "never") answers the largest
+representable time instead of wrapping around to a time in the distant past. -/
+
+/-- **Saturation.**  A `SimpleTrigger` of interval `I > 0` (resp. an unexpired `RunOnceTrigger` of delay `I`)
+asked at `prev` with `prev + I` not representable answers exactly `maxInt64`. -/
+theorem C04_saturates (I prev : Int) (hI : I > 0) (hov : prev + I > maxInt64) :
+    Trig.fire (.simple I) prev = (some maxInt64, .simple I) ∧
+    Trig.fire (.runOnce I false) prev = (some maxInt64, .runOnce I true) := by
+  rw [fire_simple, fire_runOnce, satAdd_sat hI hov]
+  exact ⟨rfl, rfl⟩
+
+/-- The answer of the two interval triggers in general: the exact sum whenever that is representable (or the
+interval is not positive); for a positive interval and a representable `prev` never a time before `prev`
+(what the wrapping addition violated) and never beyond `maxInt64`; strictly later than `prev` unless `prev`
+is `maxInt64` itself. -/
+theorem C04_interval_answer (I prev : Int) :
+    (Trig.fire (.simple I) prev).1 = some (satAdd prev I) ∧
+    (Trig.fire (.runOnce I false) prev).1 = some (satAdd prev I) ∧
+    (¬ (I > 0 ∧ prev + I > maxInt64) → satAdd prev I = prev + I) ∧
+    (I > 0 → prev ≤ maxInt64 → prev ≤ satAdd prev I ∧ satAdd prev I ≤ maxInt64) ∧
+    (I > 0 → prev < maxInt64 → prev < satAdd prev I) :=
+  ⟨rfl, rfl, satAdd_eq, fun hI hp => ⟨satAdd_ge hI hp, satAdd_le_max hp⟩, satAdd_gt⟩
+
+/-- `ScheduleJob` with such a trigger registers the job with fire time `maxInt64` (the trigger was asked once,
+with the clock reading, and answered `maxInt64`). -/
+theorem C04_saturated_registered (s : SState) (hwf : WF s) (now0 I : Int) (a : SchedArgs)
+    (ha : a.trig = some (.simple I) ∨ a.trig = some (.runOnce I false)) (hs : a.suspended = false)
+    (hI : I > 0) (hov : now0 + I > maxInt64) (hok : (schedule s now0 a).2.1 = none) :
+    a.entry maxInt64 ∈ (schedule s now0 a).1.q.toList ∧
+    (schedule s now0 a).2.2 = [⟨a.tag, now0, some maxInt64⟩] := by
+  obtain ⟨t, p, ht, _, hc | hc, hmem, _⟩ := schedule_ok_facts s now0 a hwf.inv hok
+  · rw [hs] at hc; cases hc.1
+  · obtain ⟨_, hp, _, hcalls⟩ := hc
+    have hpe : p = maxInt64 := by
+      rcases ha with ha | ha <;> rw [ha] at ht <;> injection ht with ht <;> subst ht
+      · rw [(C04_saturates I now0 hI hov).1] at hp
+        injection hp with hp
+        exact hp.symm
+      · rw [(C04_saturates I now0 hI hov).2] at hp
+        injection hp with hp
+        exact hp.symm
+    subst hpe
+    exact ⟨hmem, hcalls⟩
+
+/-- **A saturated fire time is not due — one step.**  A step at a clock reading `now < maxInt64` (threshold
+`thr ≥ 0`) that pops an active entry with fire time `maxInt64` classifies it `notDue`: not dispatched, not
+reported as misfired, the trigger is NOT asked (no re-basing on the clock), the very same entry goes back, no
+trigger object changes.  And the step popped it only because nothing earlier was there: every entry of the
+registry has fire time `≥ maxInt64` (the queue hands out a minimum, `C11_pop_min`), so the saturated entry
+never precedes — never starves — an entry with a representable fire time. -/
+theorem C04_saturated_not_due (s : SState) (now thr : Int) (h : Inv s.q) (hthr : 0 ≤ thr)
+    (hnow : now < maxInt64) (e : Entry) (hp : (step s now thr).2.popped = some e)
+    (hs : e.suspended = false) (hprio : e.prio = maxInt64) :
+    (step s now thr).2.cls = some .notDue ∧ (step s now thr).2.dispatched = false ∧
+    (step s now thr).2.misfired = false ∧ (step s now thr).2.calls = [] ∧
+    (step s now thr).2.pushed = some e ∧ (step s now thr).1.trigs = s.trigs ∧
+    (step s now thr).1.q.toList.Perm s.q.toList ∧
+    ∀ y ∈ s.q.toList, maxInt64 ≤ y.prio := by
+  obtain ⟨⟨rest, hperm, hperm'⟩, hacc⟩ := C04_accounted s now thr h e hp hs
+  have hmin : ∀ y ∈ s.q.toList, maxInt64 ≤ y.prio := by
+    rcases step_cases s now thr h with ⟨_, hst⟩ | ⟨q1, e', _, _, _, hmin, _, hst⟩
+    · rw [hst] at hp; cases hp
+    · have : e' = e := by
+        rcases hst with ⟨_, hst⟩ | ⟨_, _, _, hst⟩ | ⟨_, _, _, _, hst⟩ <;> rw [hst] at hp <;>
+          injection hp with hp
+      subst this
+      rw [← hprio]
+      exact hmin
+  rcases hacc with ⟨_, _, _, _, hdue, _⟩ | ⟨_, _, _, hlate, _⟩ | ⟨h1, h2, h3, _, h5, h6, h7⟩
+  · omega
+  · omega
+  · refine ⟨h1, h2, h3, h5, h6, h7, ?_, hmin⟩
+    rw [h6] at hperm'
+    exact hperm'.trans hperm.symm
+
+/-- **No spin — whole histories.**  An active job whose fire time is `maxInt64` (a saturated answer), ANY
+history of loop steps at clock readings before `maxInt64`: the job is never dispatched, its trigger is never
+asked again (so it is never re-based, never reported as misfired), it stays in the registry as it is.  (With
+the wrapping addition the fire time was negative instead: `C04_overflow_spins_unrepaired`.) -/
+theorem C04_saturated_never_spins (thr : Int) (hthr : 0 ≤ thr) (s : SState) (hwf : WF s) (x : Entry)
+    (hx : x ∈ s.q.toList) (hxs : x.suspended = false) (hprio : x.prio = maxInt64) (evs : List Ev)
+    (hos : OnlySteps evs) (hnows : ∀ now, Ev.step now ∈ evs → now < maxInt64) :
+    dispatchTimes x.tag (run thr s evs).2 = [] ∧
+    (∀ c ∈ callLog (run thr s evs).2, c.tag ≠ x.tag) ∧
+    x ∈ (run thr s evs).1.q.toList ∧ (run thr s evs).1.trig x.tag = s.trig x.tag :=
+  parked_aux thr x.tag evs hthr s x hwf hx hxs rfl hprio hos hnows
+
+/-! ### negative control: the unrepaired (wrapping) addition spins -/
+
+/-- `prev + interval` in int64 arithmetic as the code before repair d24dc25 computed it (wrap-around at the
+upper end; the arguments of interest are non-negative) -/
+def wrapAdd (t d : Int) : Int := if t + d > maxInt64 then t + d - 2 ^ 64 else t + d
+
+/-- an overflowing wrapped sum of two representable numbers is negative -/
+theorem wrapAdd_neg (t d : Int) (ht : t ≤ maxInt64) (hd : d ≤ maxInt64) (hov : t + d > maxInt64) :
+    wrapAdd t d < 0 := by
+  unfold wrapAdd
+  rw [if_pos hov]
+  unfold maxInt64 at *
+  omega
+
+/-- `addNanos` read literally in int64 arithmetic: the wrapped sum, replaced by `math.MaxInt64` when the interval is
+positive and the wrapped sum is smaller than `t` -/
+def goAddNanos (t d : Int) : Int := if d > 0 ∧ wrapAdd t d < t then maxInt64 else wrapAdd t d
+
+/-- **The model's `satAdd` is `addNanos`** on int64 arguments: for a positive interval always (the test
+`next < t` on the wrapped sum detects exactly the sums beyond `maxInt64`), for a non-positive interval as long as
+the sum does not fall below `MinInt64` (then nothing wraps). -/
+theorem C04_addNanos_is_satAdd (t d : Int) (ht : -maxInt64 - 1 ≤ t ∧ t ≤ maxInt64) (hd : d ≤ maxInt64)
+    (hlow : 0 < d ∨ -maxInt64 - 1 ≤ t + d) : goAddNanos t d = satAdd t d := by
+  unfold goAddNanos wrapAdd satAdd maxInt64 at *
+  split <;> split <;> split <;> omega
+
+/-- **The unrepaired trigger spins.**  An active entry with a negative fire time (what the wrapping addition
+answered for an overflowing interval: `wrapAdd_neg`) popped at a clock reading `now ≥ thr`: the step finds it
+outdated, does not dispatch it, reports a misfire and asks the trigger with the clock reading; if the trigger
+answers as the unrepaired code did (`wrapAdd now I`, overflowing again because `now` is at least the earlier
+clock reading) the entry goes back with a negative fire time AGAIN — the hypothesis of this lemma holds of
+the entry after the step, so by induction every later step finds it outdated; and being negative it precedes
+every entry with a real (non-negative) fire time: nothing else is ever dispatched. -/
+theorem C04_overflow_spins_unrepaired (s : SState) (now thr I : Int) (h : Inv s.q) (e : Entry)
+    (hp : (step s now thr).2.popped = some e) (hs : e.suspended = false) (hneg : e.prio < 0)
+    (hnow : thr ≤ now) (hmax : now ≤ maxInt64) (hI : I ≤ maxInt64) (hov : now + I > maxInt64)
+    (hf : ((s.trig e.tag).fire now).1 = some (wrapAdd now I)) :
+    (step s now thr).2.cls = some .outdated ∧ (step s now thr).2.dispatched = false ∧
+    (step s now thr).2.misfired = true ∧
+    (step s now thr).2.calls = [⟨e.tag, now, some (wrapAdd now I)⟩] ∧
+    (step s now thr).2.pushed = some { e with prio := wrapAdd now I } ∧
+    ({ e with prio := wrapAdd now I } : Entry).prio < 0 ∧
+    ({ e with prio := wrapAdd now I } : Entry) ∈ (step s now thr).1.q.toList := by
+  obtain ⟨⟨rest, _, hperm'⟩, hacc⟩ := C04_accounted s now thr h e hp hs
+  rcases hacc with ⟨_, _, _, hlo, _⟩ | ⟨h1, h2, h3, _, r, hr, h5, h6, _⟩ | ⟨_, _, _, hearly, _⟩
+  · omega
+  · rw [hf] at hr
+    subst hr
+    refine ⟨h1, h2, h3, h5, h6, wrapAdd_neg now I hmax hI hov, ?_⟩
+    rw [h6] at hperm'
+    exact hperm'.mem_iff.mpr (by simp)
+  · omega
 
 /-! ## non-vacuity -/
 namespace C04Ex
@@ -452,6 +603,81 @@ example : WF exS0 ∧ AbsentTag exB.tag exS0 ∧ exB.trig = some (.runOnce 5 fal
 -- the on-time step of `C04_run_once` (2): at 7 ∈ [6, 6 + 3] the run-once job is popped
 example : (step (run 3 exS [.step 4, .schedule 5 exC]).1 7 3).2.popped.map (·.tag) = some 2 := by
   decide +kernel
+
+-- `C04_no_drift`, hypothesis `hov`: the clock readings of `exSteps` are far from the end of time
+example : (10 : Int) ≤ 0 ∨ ∀ now, Ev.step now ∈ exSteps → now + 10 ≤ maxInt64 := by
+  right
+  intro now hm
+  simp only [exSteps, List.mem_cons, List.not_mem_nil, or_false] at hm
+  have h : now ≤ 41 := by
+    rcases hm with h | h | h | h | h | h | h | h <;> injection h with h <;> omega
+  unfold maxInt64; omega
+
+/-! ### saturation -/
+
+/-- "never": a `SimpleTrigger` with `time.Duration(math.MaxInt64)` -/
+def exN : SchedArgs := { group := "g", name := "never", tag := 5, trig := some (.simple maxInt64) }
+/-- the first addition fits (from clock reading 100), the second one saturates -/
+def exL : SchedArgs := { group := "g", name := "long", tag := 6, trig := some (.simple (maxInt64 / 4 * 3)) }
+def bigI : Int := maxInt64 / 4 * 3
+
+-- `C04_saturates` / `C04_interval_answer`
+example : Trig.fire (.simple maxInt64) 100 = (some maxInt64, .simple maxInt64) ∧
+    Trig.fire (.runOnce maxInt64 false) 100 = (some maxInt64, .runOnce maxInt64 true) :=
+  C04_saturates maxInt64 100 (by decide) (by decide)
+example : (Trig.fire (.simple bigI) 100).1 = some (100 + bigI) ∧
+    (Trig.fire (.simple bigI) (100 + bigI)).1 = some maxInt64 := by decide +kernel
+-- the boundary: the largest representable sum is not saturated away, one more is
+example : satAdd 1 (maxInt64 - 1) = maxInt64 ∧ satAdd 0 maxInt64 = maxInt64 ∧ satAdd 2 (maxInt64 - 1) = maxInt64 ∧
+    satAdd (maxInt64 - 5) 5 = maxInt64 ∧ satAdd (maxInt64 - 5) 4 = maxInt64 - 1 ∧ satAdd 7 (-9) = -2 := by
+  decide +kernel
+
+/-- the concrete starvation input: "never" beside a job with interval 10, both scheduled at 100 -/
+def exS2 : SState := (run 3 {} [.schedule 100 exN, .schedule 100 exA]).1
+def exSteps2 : List Ev := [.step 105, .step 110, .step 121, .step 130, .step 135]
+-- `C04_saturated_registered`: the hypotheses hold, the job sits at `maxInt64`
+example : WF ({} : SState) ∧ (schedule {} 100 exN).2.1 = none ∧ (100 : Int) + maxInt64 > maxInt64 ∧
+    exS2.q.toList.map (fun e => (e.name, e.prio)) = [("a", 110), ("never", maxInt64)] :=
+  ⟨wf_empty, by decide +kernel, by decide, by decide +kernel⟩
+-- `C04_saturated_never_spins`: the other job fires at 110, 120, 130; "never" is not asked, not dispatched
+example : dispatchTimes 1 (run 3 exS2 exSteps2).2 = [110, 120, 130] ∧
+    dispatchTimes 5 (run 3 exS2 exSteps2).2 = [] ∧
+    (callLog (run 3 exS2 exSteps2).2).filter (fun c => c.tag == 5) = [] := by decide +kernel
+-- `C04_saturated_not_due`: alone in the registry the saturated entry IS popped (there is nothing earlier) and
+-- goes back untouched
+example : ((step (schedule {} 100 exN).1 200 3).2.popped.map (·.prio), (step (schedule {} 100 exN).1 200 3).2.cls,
+    (step (schedule {} 100 exN).1 200 3).2.calls) = (some maxInt64, some .notDue, []) := by decide +kernel
+-- first addition fits, second saturates: dispatched once at `100 + bigI`, then parked at `maxInt64`
+example : dispatchTimes 6 (run 3 (schedule {} 100 exL).1 [.step 200, .step (100 + bigI + 1), .step (100 + bigI + 2)]).2 =
+      [100 + bigI] ∧
+    (run 3 (schedule {} 100 exL).1 [.step 200, .step (100 + bigI + 1), .step (100 + bigI + 2)]).1.q.toList.map (·.prio) =
+      [maxInt64] := by decide +kernel
+
+/-! ### negative control: the same input with the wrapping addition -/
+
+/-- the unrepaired `SimpleTrigger(math.MaxInt64)` as a scripted trigger: it is asked at 100 (`ScheduleJob`),
+then with the clock readings of the steps (105, 110) because every step finds it outdated -/
+def exWAnswers : List (Option Int) :=
+  [some (wrapAdd 100 maxInt64), some (wrapAdd 105 maxInt64), some (wrapAdd 110 maxInt64)]
+def exW : SchedArgs := { group := "g", name := "never", tag := 5, trig := some (.script exWAnswers) }
+def exS3 : SState := (run 3 {} [.schedule 100 exW, .schedule 100 exA]).1
+example : wrapAdd 100 maxInt64 = -9223372036854775709 ∧ wrapAdd 105 maxInt64 < 0 ∧ wrapAdd 0 5 = 5 := by
+  decide +kernel
+-- `C04_addNanos_is_satAdd`: the literal int64 reading of `addNanos` on an overflowing, a fitting and a negative case
+example : goAddNanos 100 maxInt64 = maxInt64 ∧ wrapAdd 100 maxInt64 < 100 ∧ goAddNanos 100 5 = 105 ∧
+    goAddNanos 100 (-7) = 93 ∧ goAddNanos (maxInt64 - 5) 5 = maxInt64 ∧ goAddNanos maxInt64 1 = maxInt64 := by
+  decide +kernel
+-- both steps pop "never" (negative fire time: ahead of everything), find it outdated and ask it with the
+-- clock; job `g/a`, due at 110, is not dispatched at 110: starved
+example : (run 3 exS3 [.step 105, .step 110]).2.map
+      (fun o => (o.out.bind (·.popped) |>.map (·.name), o.out.bind (·.cls), o.calls.map (·.prev))) =
+    [(some "never", some .outdated, [105]), (some "never", some .outdated, [110])] ∧
+    dispatchTimes 1 (run 3 exS3 [.step 105, .step 110]).2 = [] := by decide +kernel
+-- the hypotheses of `C04_overflow_spins_unrepaired` at the first of these steps
+example : ∃ e, (step exS3 105 3).2.popped = some e ∧ e.suspended = false ∧ e.prio < 0 ∧
+    ((exS3.trig e.tag).fire 105).1 = some (wrapAdd 105 maxInt64) :=
+  ⟨{ group := "g", name := "never", prio := wrapAdd 100 maxInt64, tag := 5 }, by decide +kernel, rfl,
+    by decide +kernel, by decide +kernel⟩
 
 end C04Ex
 
